@@ -63,6 +63,8 @@ def _mk_stream_cls():
 
         def _tick(self):
             self.ops += 1
+            if self.ops > getattr(self, "max_ops", 10 ** 9):
+                raise StepLimit("stream operations")
             if self._eof:
                 return
             if self._segs and self._segs[0][0] > 0:
@@ -142,3 +144,970 @@ def drive(coro, stream, max_waits=1_000_000):
                     asyncio._set_running_loop(loop)
     finally:
         asyncio._set_running_loop(None)
+
+
+# ----------------------------------------------------------------------------------------------
+# writer side (real MultipartWriter / FormData)
+
+class _Rec:
+    """AbstractStreamWriter stand-in recording every write()."""
+
+    def __init__(self):
+        self.calls = []
+
+    async def write(self, d):
+        self.calls.append(bytes(d))
+
+
+class _NoStream:
+    _waiter = object()
+
+
+def build_writer(spec):
+    """spec -> (MultipartWriter, [original content bytes per part])"""
+    from aiohttp import FormData
+    from aiohttp.multipart import MultipartWriter
+    from multidict import CIMultiDict
+    kind = spec["kind"]
+    origs = []
+    if kind == "formdata":
+        fd = FormData(quote_fields=spec.get("quote_fields", True), boundary=spec["boundary"], default_to_multipart=True)
+        for p in spec["parts"]:
+            content = bytes.fromhex(p["content"])
+            val = content.decode("utf-8") if p.get("str") else content
+            fd.add_field(p["name"], val, content_type=p.get("ctype"), filename=p.get("filename"))
+            origs.append(content)
+        return fd(), origs
+    w = MultipartWriter(kind, boundary=spec["boundary"])
+    for p in spec["parts"]:
+        content = bytes.fromhex(p["content"])
+        hs = CIMultiDict()
+        for k, v in p.get("headers", []):
+            hs.add(k, v)
+        if p.get("cte"):
+            hs["Content-Transfer-Encoding"] = p["cte"]
+        if p.get("ce"):
+            hs["Content-Encoding"] = p["ce"]
+        if p.get("ctype"):
+            hs["Content-Type"] = p["ctype"]
+        val = content.decode("utf-8") if p.get("str") else content
+        pl = w.append(val, hs)
+        if kind == "form-data" and p.get("name") is not None:
+            pl.set_content_disposition("form-data", quote_fields=spec.get("quote_fields", True), name=p["name"],
+                                       **({"filename": p["filename"]} if p.get("filename") is not None else {}))
+        origs.append(content)
+    return w, origs
+
+
+def write_out(w):
+    """-> (wire bytes, [(binary_headers, wire body, identity)] per part, declared size)"""
+    rec = _Rec()
+    drive(w.write(rec), _NoStream)
+    wire = b"".join(rec.calls)
+    opening = b"--" + w._boundary + b"\r\n"
+    closing = b"--" + w._boundary + b"--\r\n"
+    parts = []
+    i = 0
+    calls = rec.calls
+    for (pl, enc, te) in w._parts:
+        if i >= len(calls) or calls[i] != opening:
+            raise AssertionError("writer framing: opening delimiter write not found")
+        bh = pl._binary_headers
+        if calls[i + 1] != bh:
+            raise AssertionError("writer framing: header write not found")
+        j = i + 2
+        body = []
+        while j < len(calls):
+            if calls[j] == b"\r\n" and j + 1 < len(calls) and calls[j + 1] in (opening, closing):
+                nxt_is_last = len(parts) == len(w._parts) - 1
+                if (calls[j + 1] == closing) == nxt_is_last or calls[j + 1] == opening:
+                    break
+            body.append(calls[j])
+            j += 1
+        parts.append((bh, b"".join(body), not (enc or te)))
+        i = j + 1
+    return wire, parts, w.size
+
+
+def expected_name(pspec, got):
+    """field names / filenames: verbatim or a percent-encoded form that decodes to the original"""
+    from urllib.parse import unquote
+    if got == pspec:
+        return True
+    if got is None or pspec is None:
+        return False
+    try:
+        return unquote(got, "utf-8", "strict") == pspec
+    except Exception:  # noqa
+        return False
+
+
+# ----------------------------------------------------------------------------------------------
+# reader side (real MultipartReader over TickStream)
+
+BIG = 2 ** 62 - 1
+
+
+class MaxSize(Exception):
+    pass
+
+
+def err_class(e):
+    from aiohttp.http_exceptions import BadHttpMessage, InvalidHeader, LineTooLong
+    if isinstance(e, MaxSize):
+        return "maxsize"
+    if isinstance(e, LineTooLong):
+        return "linetoolong"
+    if isinstance(e, InvalidHeader):
+        return "invalidheader"
+    if isinstance(e, BadHttpMessage):
+        return "badhttp"
+    if isinstance(e, AssertionError):
+        return "assert"
+    if isinstance(e, ValueError):
+        return "value"
+    return "ESCAPED:" + type(e).__name__
+
+
+def hdr_pairs(headers):
+    return [(k.encode("utf-8", "surrogateescape"), v.encode("utf-8", "surrogateescape")) for k, v in headers.items()]
+
+
+async def _read_all(ctype, stream, sched, limits, rec):
+    """Drive the real reader; rec gets: parts (dicts), final, and counters."""
+    from aiohttp.multipart import BodyPartReader, MultipartReader
+    r = MultipartReader({"Content-Type": ctype}, stream, client_max_size=limits.get("client_max", BIG),
+                        max_field_size=limits.get("max_field", 8190), max_headers=limits.get("max_headers", 128),
+                        max_size_error_cls=MaxSize)
+    rec["boundary"] = r._boundary
+    i = 0
+    while True:
+        rec["phase"] = ("next", i, stream._cursor)
+        part = await r.next()
+        if part is None:
+            rec["final"] = "END"
+            return
+        if not isinstance(part, BodyPartReader):
+            rec["final"] = "UNMODELLED"
+            return
+        a = sched[i] if i < len(sched) else ["R"]
+        i += 1
+        rec["phase"] = ("part", i, stream._cursor)
+        info = {"headers": hdr_pairs(part.headers), "chunks": [], "api": a, "part": part, "cursor0": stream._cursor}
+        rec["cur"] = info
+        calls = 0
+        if a[0] == "R":
+            info["chunks"].append(bytes(await part.read()))
+        elif a[0] == "C":
+            sizes = list(a[2]) or [8192]
+            while not part.at_eof() and (a[1] == 0 or calls < a[1]):
+                info["chunks"].append(bytes(await part.read_chunk(sizes[calls % len(sizes)])))
+                calls += 1
+        elif a[0] == "L":
+            while not part.at_eof() and (a[1] == 0 or calls < a[1]):
+                info["chunks"].append(bytes(await part.readline()))
+                calls += 1
+        elif a[0] == "X":
+            await part.release()
+        info["eof"] = part.at_eof()
+        info["name"], info["filename"] = part.name, part.filename
+        rec["parts"].append(info)
+        rec["cur"] = None
+
+
+def impl_run(ctype, segs, eager, sched, limits, max_ops=None):
+    stream = make_stream(segs, eager)
+    total = sum(len(b) for _, b in segs)
+    stream.max_ops = max_ops if max_ops is not None else 40 * total + 20000
+    rec = {"parts": [], "final": None, "cur": None}
+    with warnings.catch_warnings():
+        warnings.simplefilter("ignore")
+        try:
+            drive(_read_all(ctype, stream, sched, limits, rec), stream, max_waits=len(segs) + 1000)
+        except StepLimit as e:
+            rec["final"] = "NONTERMINATION"
+        except Exception as e:  # noqa
+            rec["final"] = "ERR " + err_class(e)
+            rec["exc"] = repr(e)[:200]
+    rec["ops"], rec["waits"], rec["cursor"], rec["fed"] = stream.ops, stream.waits, stream._cursor, stream.total_bytes
+    return rec
+
+
+def obs_of_impl(rec):
+    out = []
+    for p in rec["parts"]:
+        hs = ";".join(k.hex() + "=" + (v.hex() or "-") for k, v in p["headers"]) or "-"
+        out.append("P " + hs + " " + fw.hexs(b"".join(p["chunks"])) + " " + ("1" if p["eof"] else "0"))
+    out.append(rec["final"])
+    return " | ".join(out)
+
+
+def sched_str(sched):
+    toks = []
+    for a in sched:
+        if a[0] == "C":
+            toks.append("C%d:%s" % (a[1], "/".join(str(z) for z in (a[2] or [8192]))))
+        elif a[0] == "L":
+            toks.append("L%d" % a[1])
+        else:
+            toks.append(a[0])
+    return ",".join(toks) or "-"
+
+
+def model_line(boundary, form, segs, eager, sched, limits):
+    total = sum(len(b) for _, b in segs)
+    fuel = 2 * total + 64
+    sg = ",".join("%d:%s" % (d, bytes(b).hex()) for d, b in segs) or "-"
+    return "RUN %d %s %d %d %d %d %d %d %s %s" % (
+        fuel, fw.hexs(boundary), 1 if form else 0, limits.get("max_field", 8190), limits.get("max_headers", 128),
+        limits.get("client_max", BIG), HIGH, 1 if eager else 0, sg, sched_str(sched))
+
+
+# ----------------------------------------------------------------------------------------------
+# generators
+
+BOUNDARIES = ["b", "BND", "x-y_z.0", "0123456789abcdef0123456789abcdef", "B" * 70, "a'b+c", "with space", "q:r=s",
+              "----WebKitFormBoundary7MA4YWxkTrZu0gW", "--", "-"]
+
+
+def gen_content(rng, boundary: bytes, target=None, text=False):
+    """Bytes rich in CR/LF runs, dashes and proper prefixes of the delimiter; never containing the delimiter
+    CRLF--boundary (also not across the CRLF that precedes the content)."""
+    delim = b"\r\n--" + boundary
+    if target is None:
+        r = rng.random()
+        blen = len(boundary) + 4
+        if r < 0.35:
+            target = rng.randint(0, 40)
+        elif r < 0.60:
+            target = max(0, rng.choice([blen, 2 * blen, 3 * blen]) + rng.randint(-3, 3))
+        elif r < 0.80:
+            target = rng.randint(41, 400)
+        elif r < 0.93:
+            target = max(0, rng.choice([8192, 8192 - blen, 8192 + blen, 8192 - 2]) + rng.randint(-4, 4))
+        else:
+            target = max(0, rng.choice([16384, 16384 + blen, 12000]) + rng.randint(-4, 4))
+    toks = [b"\r", b"\n", b"\r\n", b"-", b"--", b"\r\n-", b"\r\n--", b"\n--" + boundary, b"--" + boundary,
+            b"--" + boundary + b"--", b"\r\n\r\n", b"=", b" ", b"\t"]
+    out = bytearray()
+    while len(out) < target:
+        r = rng.random()
+        if r < 0.30:
+            out += rng.choice(toks)
+        elif r < 0.45:
+            k = rng.randint(1, len(delim) - 1)
+            out += delim[:k]
+        elif r < 0.55 and not text:
+            out += bytes(rng.randrange(256) for _ in range(rng.randint(1, 8)))
+        elif r < 0.60 and target > 200:
+            out += bytes([rng.choice(b"abcxyz")]) * rng.randint(20, min(3000, target))
+        else:
+            out += bytes(rng.choice(b"abcdefXYZ019 .,;") for _ in range(rng.randint(1, 12)))
+    out = out[:target]
+    # destroy accidental delimiters
+    while True:
+        i = (b"\r\n" + bytes(out)).find(delim)
+        if i < 0:
+            break
+        j = i - 2 + len(delim) - 1
+        out[j] = 0x41 if out[j] != 0x41 else 0x42
+    return bytes(out)
+
+
+def gen_text(rng, boundary: bytes, eol=None):
+    eol = eol or rng.choice([b"\r\n", b"\n"])
+    n = rng.choice([0, 1, 2, 3, 5, 20])
+    lines = []
+    for _ in range(n):
+        r = rng.random()
+        if r < 0.15:
+            lines.append(b"")
+        elif r < 0.30:
+            lines.append(b"--" + boundary[: rng.randint(0, len(boundary))] + rng.choice([b"", b"x", b"--"]))
+        elif r < 0.40:
+            lines.append(bytes(rng.choice(b"ab =.-_?\t") for _ in range(rng.randint(60, 120))))
+        else:
+            lines.append(bytes(rng.choice(b"abcXYZ 019=.-_?\t") for _ in range(rng.randint(1, 30))))
+    txt = eol.join(lines) + (eol if rng.random() < 0.5 and n else b"")
+    delim = b"\r\n--" + boundary
+    while delim in b"\r\n" + txt:
+        txt = (b"\r\n" + txt).replace(delim, b"\r\n-+" + boundary)[2:]
+    return txt
+
+
+NAMES = ["a", "field", "f 1", "naïve", "x\"y", "a;b", "semi;colon;two", "back\\slash", "файл", "a=b", "sp ace ", " lead",
+         "/abs", "\\\\unc", "per%20cent", "q'uote", "tab\tname", "日本語.txt", "a b", "_charset", "plus+", "*star", "x" * 80]
+
+
+def gen_spec(rng, quick=True):
+    kind = rng.choice(["mixed", "mixed", "form-data", "formdata", "related"])
+    boundary = rng.choice(BOUNDARIES) if rng.random() < 0.8 else "".join(
+        rng.choice("abcXYZ019'()+_,-./:=? ") for _ in range(rng.randint(1, 70))).strip() or "z"
+    if boundary.endswith(" ") or boundary.startswith(" "):
+        boundary = "s" + boundary.strip() + "e"
+    bb = boundary.encode()
+    nparts = rng.choice([0, 1, 1, 2, 2, 3, 4, 6])
+    parts = []
+    big_used = False
+    for _ in range(nparts):
+        p = {}
+        enc = rng.random()
+        if kind in ("form-data", "formdata"):
+            p["name"] = rng.choice(NAMES) if rng.random() < 0.5 else "n%d" % rng.randint(0, 99)
+            if rng.random() < 0.4:
+                p["filename"] = rng.choice(NAMES)
+            if rng.random() < 0.3:
+                p["ctype"] = rng.choice(["text/plain", "application/octet-stream", "text/plain; charset=utf-8", "image/png"])
+            if rng.random() < 0.3:
+                p["content"] = gen_text(rng, bb).hex()
+                p["str"] = True
+            else:
+                p["content"] = gen_content(rng, bb, None if not big_used else rng.randint(0, 60)).hex()
+        else:
+            if rng.random() < 0.3:
+                p["headers"] = [["X-" + rng.choice(["A", "Bee", "c-d"]), rng.choice(["1", "v w", "é", ""])]]
+            if enc < 0.50:
+                p["content"] = gen_content(rng, bb, None if not big_used else rng.randint(0, 60)).hex()
+                if rng.random() < 0.15:
+                    p["cte"] = "binary"
+                if rng.random() < 0.1:
+                    p["ce"] = "identity"
+            elif enc < 0.68:
+                p["cte"] = "base64"
+                p["content"] = gen_content(rng, bb, rng.choice([None, rng.randint(0, 20), 6141, 6144, 6145, 12288]) if not big_used else rng.randint(0, 60)).hex()
+            elif enc < 0.80:
+                p["cte"] = "quoted-printable"
+                p["content"] = gen_text(rng, bb).hex()
+                if rng.random() < 0.5:
+                    p["str"] = True
+            elif enc < 0.92:
+                p["ce"] = rng.choice(["gzip", "deflate"])
+                p["content"] = gen_content(rng, bb, None if not big_used else rng.randint(0, 60)).hex()
+            else:
+                p["ce"] = rng.choice(["gzip", "deflate"])
+                p["cte"] = "base64"
+                p["content"] = gen_content(rng, bb, rng.randint(0, 300)).hex()
+        if len(p["content"]) > 8000:
+            big_used = True
+        parts.append(p)
+    spec = {"kind": kind, "boundary": boundary, "parts": parts}
+    if kind in ("form-data", "formdata"):
+        spec["quote_fields"] = rng.random() < 0.6
+    return spec
+
+
+def gen_segs(rng, wire: bytes, blen: int):
+    n = len(wire)
+    style = rng.random()
+    cuts = set()
+    if style < 0.15:
+        pass
+    elif style < 0.45:
+        k = rng.choice([1, 1, 2, 3, 4, 5, 7, blen - 1, blen, blen + 1, 64, 1000, 8191, 8192, 8193, 4096])
+        if n > 3000 and k < 3:
+            k = rng.choice([5, 7, 13])
+        cuts = set(range(k, n, max(1, k)))
+    elif style < 0.75:
+        pos = 0
+        while pos < n:
+            pos += rng.choice([1, 2, 3, rng.randint(1, 20), rng.randint(1, 200), rng.randint(1, 9000)])
+            cuts.add(pos)
+    else:
+        # cuts around every delimiter occurrence and around multiples of 8192
+        marks = [i for i in range(n) if wire.startswith(b"\r\n--", i)][:40] + list(range(8192, n, 8192))
+        for m in marks:
+            for _ in range(rng.randint(1, 3)):
+                cuts.add(m + rng.randint(-3, blen + 4))
+    cuts = sorted(c for c in cuts if 0 < c < n)
+    if len(cuts) > 6000:
+        cuts = cuts[:: len(cuts) // 6000 + 1]
+    segs, prev = [], 0
+    dstyle = rng.choice([0, 1, 2, 3])
+    for c in cuts + [n]:
+        if c > prev:
+            d = 0 if dstyle == 0 else (1 if dstyle == 1 else rng.choice([0, 0, 1, 1, 2, 3, 9]))
+            segs.append([d, wire[prev:c]])
+            prev = c
+    return segs, rng.random() < 0.6
+
+
+def gen_sched(rng, nparts: int, blen: int, allow_partial_lines=True):
+    out = []
+    uniform = rng.random() < 0.4
+    legal = [blen, blen, blen + 1, blen + 2, 2 * blen, 64 + blen, 100 + blen, 4096, 8191, 8192, 8193, 20000]
+
+    def one():
+        r = rng.random()
+        if r < 0.30:
+            return ["R"]
+        if r < 0.60:
+            return ["C", 0, [rng.choice(legal) for _ in range(rng.choice([1, 1, 2, 3]))]]
+        if r < 0.75:
+            return ["L", 0]
+        if r < 0.82:
+            return ["X"]
+        if r < 0.88:
+            return ["S"]
+        if r < 0.96 or not allow_partial_lines:
+            return ["C", rng.randint(1, 3), [rng.choice(legal) for _ in range(rng.choice([1, 2]))]]
+        return ["L", rng.randint(1, 2)]
+    if uniform:
+        a = one()
+        return [a for _ in range(nparts + 1)]
+    return [one() for _ in range(nparts + 1)]
+
+
+# ----------------------------------------------------------------------------------------------
+# property oracle (implementation output only)
+
+def _written_headers(binary_headers: bytes):
+    out = []
+    for ln in binary_headers.split(b"\r\n"):
+        if ln:
+            k, _, v = ln.partition(b":")
+            out.append((k.strip().lower(), v.strip()))
+    return out
+
+
+def _decode_part(info, raw_chunks, per_chunk):
+    part = info["part"]
+    if per_chunk:
+        return b"".join(bytes(part.decode(c)) for c in raw_chunks)
+    return bytes(part.decode(b"".join(raw_chunks)))
+
+
+def qp_law_ok(content: bytes) -> bool:
+    return binascii.a2b_qp(binascii.b2a_qp(content)) == content
+
+
+def api_complete(a, info):
+    return a[0] == "R" or (a[0] in ("C", "L") and (a[1] == 0 or info["eof"]))
+
+
+def oracle_roundtrip(spec, origs, wparts, wire, size, rec, sched):
+    """-> list of (kind, message, detail) (empty = the property holds on this case)"""
+    bad = []
+    if size is not None and size != len(wire):
+        bad.append(("size", f"declared size {size} != {len(wire)} bytes written", {}))
+    if rec["final"] == "NONTERMINATION":
+        cur = rec.get("cur") or {}
+        return bad + [("nontermination", f"reader did not terminate within the step bound (phase {rec.get('phase')}, api {cur.get('api')})",
+                       {"api": cur.get("api"), "phase": list(rec.get("phase") or [])})]
+    want_b = b"--" + spec["boundary"].encode("ascii")
+    if rec.get("boundary") is not None and rec["boundary"] != want_b:
+        return bad + [("boundary-param", f"boundary parameter read back as {rec['boundary']!r}, written {want_b!r}", {})]
+    tainted = False      # a partial readline leaves the reader outside the single-API quantifier
+    derailed = False
+    for i, info in enumerate(rec["parts"]):
+        a = info["api"]
+        if i >= len(origs):
+            bad.append(("count", f"part {i}: reader produced more parts than were written", {}))
+            derailed = True
+            break
+        ps = spec["parts"][i]
+        got_h = {}
+        for k, v in info["headers"]:
+            got_h.setdefault(k.lower(), v)
+        hbad = False
+        for k, v in _written_headers(wparts[i][0]):
+            if got_h.get(k) != v:
+                bad.append(("header", f"part {i}: header {k!r} written {v!r} read {got_h.get(k)!r}", {"part": i}))
+                hbad = True
+        if hbad:
+            derailed = True
+            break
+        if spec["kind"] in ("form-data", "formdata") and "name" in ps:
+            disp = got_h.get(b"content-disposition", b"").decode("utf-8", "replace")
+            if not expected_name(ps["name"], info["name"]):
+                bad.append(("name", f"part {i}: field name {ps['name']!r} read back as {info['name']!r}",
+                            {"part": i, "written": ps["name"], "read": info["name"], "disposition": disp}))
+            if not expected_name(ps.get("filename"), info["filename"]):
+                bad.append(("filename", f"part {i}: filename {ps.get('filename')!r} read back as {info['filename']!r}",
+                            {"part": i, "written": ps.get("filename"), "read": info["filename"], "disposition": disp}))
+        if api_complete(a, info):
+            raw = b"".join(info["chunks"])
+            if raw != wparts[i][1]:
+                bad.append(("content", f"part {i}: wire content differs ({len(raw)} bytes read, {len(wparts[i][1])} written) api={a}",
+                            {"part": i, "api": a}))
+                derailed = True
+                break
+            if not info["eof"]:
+                bad.append(("eof-flag", f"part {i}: not at_eof after a complete {a[0]}", {"part": i, "api": a}))
+            cte, ce = ps.get("cte"), ps.get("ce")
+            if cte == "quoted-printable" and not qp_law_ok(origs[i]):
+                pass        # stdlib a2b_qp(b2a_qp(x)) != x for this text: outside the oracle law
+            else:
+                per_chunk = a[0] == "C" and cte == "base64" and ce in (None, "identity")
+                try:
+                    dec = _decode_part(info, info["chunks"], per_chunk)
+                    if dec != origs[i]:
+                        bad.append(("decode", f"part {i}: decoded content differs from the original (cte={cte}, ce={ce}, api={a}, per_chunk={per_chunk})",
+                                    {"part": i, "api": a}))
+                except Exception as e:  # noqa
+                    bad.append(("decode", f"part {i}: decoding raised {e!r} (cte={cte}, ce={ce}, api={a}, per_chunk={per_chunk})", {"part": i, "api": a}))
+        elif a[0] == "C":
+            raw = b"".join(info["chunks"])
+            if not wparts[i][1].startswith(raw):
+                bad.append(("prefix", f"part {i}: partial read_chunk data is not a prefix of the written content", {"part": i, "api": a}))
+                derailed = True
+                break
+        elif a[0] == "L" and not info["eof"]:
+            tainted = True
+            break
+    if not tainted and not derailed:
+        if rec["final"] != "END":
+            cur = rec.get("cur") or {}
+            bad.append(("final", f"reader ended with {rec['final']} ({rec.get('exc')}) after {len(rec['parts'])} of {len(origs)} parts (api {cur.get('api')})",
+                        {"api": cur.get("api"), "part": len(rec["parts"])}))
+        elif len(rec["parts"]) != len(origs):
+            bad.append(("count", f"{len(rec['parts'])} parts read, {len(origs)} written", {}))
+    return bad
+
+
+def report(ctx, case, bad):
+    for kind, msg, detail in bad:
+        c = dict(case)
+        c["violation_kind"] = kind
+        c["detail"] = detail
+        ctx.violation(c, msg)
+
+
+def strip_case(rec):
+    for p in rec["parts"]:
+        p.pop("part", None)
+    if rec.get("cur"):
+        rec["cur"].pop("part", None)
+    return rec
+
+
+# ----------------------------------------------------------------------------------------------
+# suites
+
+def seg_lens(segs):
+    return [[d, len(b)] for d, b in segs]
+
+
+def segs_from_lens(wire, lens):
+    out, pos = [], 0
+    for d, n in lens:
+        if pos >= len(wire):
+            break
+        out.append([d, wire[pos:pos + n]])
+        pos += n
+    if pos < len(wire):
+        out.append([0, wire[pos:]])
+    return out
+
+
+def model_writer_lines(boundary: bytes, wparts):
+    ps = ",".join("%s:%s:%d" % (fw.hexs(h), fw.hexs(b), 1 if i else 0) for h, b, i in wparts) or "-"
+    return ["ENC %s %s" % (fw.hexs(boundary), ps), "SIZE %s %s" % (fw.hexs(boundary), ps)]
+
+
+def compare_obs(model: str, impl: str):
+    """None = agree / not comparable, else a short reason"""
+    if model.endswith("UNMODELLED"):
+        return None
+    m = model.replace("ERR FUEL", "NONTERMINATION")
+    if m == impl:
+        return None
+    return "observables differ"
+
+
+def suite_roundtrip(ctx, exe, specs=None):
+    rng = ctx.rng
+    n = 260 if ctx.quick else 6000
+    cases, lines, wlines = [], [], []
+    for k in range(n):
+        spec = gen_spec(rng, ctx.quick)
+        try:
+            w, origs = build_writer(spec)
+            wire, wparts, size = write_out(w)
+        except (ValueError, AssertionError, TypeError) as e:
+            ctx.count("writer:refused")
+            continue
+        ctype = w.headers["Content-Type"]
+        blen = len(spec["boundary"]) + 4
+        reps = 1 if len(wire) > 6000 else rng.choice([1, 2, 3])
+        wl = model_writer_lines(spec["boundary"].encode("ascii"), wparts)
+        wlines.append((spec, wire, size, wl))
+        for _ in range(reps):
+            segs, eager = gen_segs(rng, wire, blen)
+            sched = gen_sched(rng, len(spec["parts"]), blen)
+            rec = impl_run(ctype, segs, eager, sched, {})
+            case = {"suite": "roundtrip", "spec": spec, "segs": seg_lens(segs), "eager": eager, "sched": sched}
+            bad = oracle_roundtrip(spec, origs, wparts, wire, size, rec, sched)
+            impl = obs_of_impl(rec)
+            boundary = rec.get("boundary") or (b"--" + spec["boundary"].encode())
+            lines.append(model_line(boundary[2:], spec["kind"] in ("form-data", "formdata"), segs, eager, sched, {}))
+            cases.append((case, impl, bad, rec["final"], len(wire), len(segs)))
+            for a in sched[: len(spec["parts"])]:
+                ctx.count("api:" + a[0] + ("" if a[0] in "RXS" or a[1] == 0 else "-partial"))
+            for p in spec["parts"]:
+                ctx.count("enc:" + (p.get("cte") or "-") + "/" + (p.get("ce") or "-"))
+            ctx.count("kind:" + spec["kind"])
+            ctx.count("wire:<64" if len(wire) < 64 else "wire:<1k" if len(wire) < 1024 else "wire:<8k" if len(wire) < 8192 else "wire:>=8k")
+            ctx.count("segs:1" if len(segs) == 1 else "segs:<=16" if len(segs) <= 16 else "segs:<=256" if len(segs) <= 256 else "segs:>256")
+    model = fw.run_model(exe, lines)
+    for (case, impl, bad, final, wl, ns), m in zip(cases, model):
+        ctx.case((json.dumps(case, sort_keys=True), impl), nontrivial=impl.startswith("P "))
+        ctx.count("final:" + final.split(":")[0])
+        if m.endswith("UNMODELLED"):
+            ctx.count("model:unmodelled")
+        why = compare_obs(m, impl)
+        if why:
+            ctx.disagreement("roundtrip", case, m[:2000], impl[:2000])
+        report(ctx, case, bad)
+    if cases:
+        ctx.sample({"suite": "roundtrip", "spec_kind": cases[-1][0]["spec"]["kind"], "boundary": cases[-1][0]["spec"]["boundary"],
+                    "segments": cases[-1][0]["segs"][:8], "sched": cases[-1][0]["sched"], "impl": cases[-1][1][:300]})
+    ctx.close_suite("roundtrip", len(cases))
+    # writer framing + size: model encode/size against the real writer
+    ml = fw.run_model(exe, [x for (_, _, _, wl) in wlines for x in wl])
+    ran = 0
+    for i, (spec, wire, size, wl) in enumerate(wlines):
+        enc, sz = ml[2 * i], ml[2 * i + 1]
+        ran += 1
+        ctx.case(("writer", json.dumps(spec, sort_keys=True)), nontrivial=bool(spec["parts"]))
+        msz = None if sz == "NONE" else int(sz.split()[1])
+        if fw.unhex(enc) != wire or msz != size:
+            ctx.disagreement("writer", {"suite": "writer", "spec": spec}, f"{enc[:400]} size={sz}", f"{wire.hex()[:400]} size={size}")
+        if size is not None and size != len(wire):
+            report(ctx, {"suite": "writer", "spec": spec}, [("size", f"declared size {size} != {len(wire)} bytes written", {})])
+        ctx.count("size:" + ("none" if size is None else "some"))
+    ctx.close_suite("writer", ran)
+
+
+def build_model():
+    return fw.ocaml_model("C19", ["Model/Multipart.vo"])
+
+
+def _part_content(case, i):
+    try:
+        return bytes.fromhex(case["spec"]["parts"][i]["content"])
+    except Exception:  # noqa
+        return None
+
+
+def sig_readline_lf_boundary(case, params):
+    """readline() on a part whose content has a line starting with the dash-boundary after a bare LF"""
+    if case.get("violation_kind") not in ("content", "final", "count", "header"):
+        return False
+    d = case.get("detail") or {}
+    api = d.get("api")
+    if not api or api[0] != "L":
+        return False
+    i = d.get("part")
+    content = _part_content(case, i) if i is not None else None
+    if content is None:
+        return False
+    needle = b"\n--" + case["spec"]["boundary"].encode("ascii")
+    j = content.find(needle)
+    while j >= 0:
+        if j == 0 or content[j - 1] != 13:
+            return True
+        j = content.find(needle, j + 1)
+    return False
+
+
+def _quoted_values(header: str):
+    vals, i, n = [], 0, len(header)
+    while i < n:
+        if header[i] == '"':
+            j, buf = i + 1, []
+            while j < n and header[j] != '"':
+                if header[j] == "\\" and j + 1 < n:
+                    buf.append(header[j:j + 2])
+                    j += 2
+                else:
+                    buf.append(header[j])
+                    j += 1
+            vals.append("".join(buf))
+            i = j + 1
+        else:
+            i += 1
+    return vals
+
+
+def sig_disposition_semicolons(case, params):
+    """Content-Disposition whose quoted parameter values contain semicolons the split-based parser cannot reassemble"""
+    if case.get("violation_kind") not in ("name", "filename"):
+        return False
+    d = case.get("detail") or {}
+    if d.get("read") is not None:
+        return False
+    return any(v.count(";") >= 2 or '\\";' in v for v in _quoted_values(d.get("disposition") or ""))
+
+
+def sig_disposition_leading_slash(case, params):
+    """leading '/' and '\\' of a quoted parameter value are stripped by parse_content_disposition"""
+    if case.get("violation_kind") not in ("name", "filename"):
+        return False
+    d = case.get("detail") or {}
+    w, r = d.get("written"), d.get("read")
+    return isinstance(w, str) and isinstance(r, str) and w != r and w.lstrip("\\/") == r
+
+
+def sig_readline_loop_at_eof(case, params):
+    """`while not part.at_eof(): await part.readline()` on a body that ends before the part's delimiter"""
+    if case.get("violation_kind") != "nontermination":
+        return False
+    api = (case.get("detail") or {}).get("api")
+    return bool(api) and api[0] == "L"
+
+
+SIGNATURES = {
+    "readline_lf_boundary": sig_readline_lf_boundary,
+    "disposition_semicolons": sig_disposition_semicolons,
+    "disposition_leading_slash": sig_disposition_leading_slash,
+    "readline_loop_at_eof": sig_readline_loop_at_eof,
+}
+
+
+def run(ctx):
+    ok, exe = build_model()
+    ctx.oblige("model-runner-build", "correspondence", ok, "" if ok else exe)
+    if not ok:
+        return
+    run_corpus(ctx, exe)
+    suite_roundtrip(ctx, exe)
+    suite_mutants(ctx, exe)
+    suite_limits(ctx, exe)
+
+
+def run_corpus(ctx, exe):
+    d = os.path.join(fw.VERIF, "corpus", PROP)
+    ran = 0
+    for fn in sorted(os.listdir(d)) if os.path.isdir(d) else []:
+        if not fn.endswith(".json"):
+            continue
+        payload = json.load(open(os.path.join(d, fn)))
+        case = payload.get("case", payload)
+        r = replay_case(exe, case)
+        ran += 1
+        ctx.case((fn, r.get("impl")), nontrivial=True)
+        if r.get("disagree"):
+            ctx.disagreement("corpus", case, r.get("model", "")[:1500], r.get("impl", "")[:1500])
+        report(ctx, case, r.get("bad", []))
+    if ran:
+        ctx.close_suite("corpus", ran)
+
+
+def replay_case(exe, case):
+    suite = case.get("suite")
+    if suite in ("roundtrip",):
+        spec = case["spec"]
+        w, origs = build_writer(spec)
+        wire, wparts, size = write_out(w)
+        segs = segs_from_lens(wire, case["segs"])
+        rec = impl_run(w.headers["Content-Type"], segs, case["eager"], case["sched"], case.get("limits") or {})
+        bad = oracle_roundtrip(spec, origs, wparts, wire, size, rec, case["sched"])
+        impl = obs_of_impl(rec)
+        boundary = rec.get("boundary") or (b"--" + spec["boundary"].encode())
+        m = fw.run_model(exe, [model_line(boundary[2:], spec["kind"] in ("form-data", "formdata"), segs, case["eager"],
+                                          case["sched"], case.get("limits") or {})])[0]
+        return {"impl": impl, "model": m, "disagree": bool(compare_obs(m, impl)), "bad": bad, "violates": bool(bad),
+                "wire": wire.hex()}
+    if suite in ("mutants", "limits"):
+        wire = bytes.fromhex(case["wire"])
+        if suite == "limits":
+            segs = [[10 ** 9, wire[i:i + case["k"]]] for i in range(0, len(wire), case["k"])]
+            eager = False
+        else:
+            segs, eager = segs_from_lens(wire, case["segs"]), case["eager"]
+        limits = case.get("limits") or {}
+        rec = impl_run(case["ctype"], segs, eager, case["sched"], limits)
+        impl = obs_of_impl(rec)
+        bad = oracle_arbitrary(rec, len(wire), len(segs))
+        if suite == "limits":
+            if rec["final"].split(" (")[0] != case["expect"]:
+                bad.append(("limit", f"{case['what']}: reader ended with {rec['final']}, expected {case['expect']}", {}))
+            elif case.get("fed_bound") is not None and rec["fed"] > case["fed_bound"]:
+                bad.append(("limit-late", f"{case['what']}: limit enforced after {rec['fed']} bytes (bound {case['fed_bound']})", {"fed": rec["fed"]}))
+        rb = rec.get("boundary") or b"--?"
+        m = fw.run_model(exe, [model_line(rb[2:], bool(case.get("form")), segs, eager, case["sched"], limits)])[0]
+        return {"impl": impl[-3000:], "model": m[-3000:], "disagree": bool(compare_obs(m, impl)), "bad": bad, "violates": bool(bad)}
+    if suite == "writer":
+        spec = case["spec"]
+        w, origs = build_writer(spec)
+        wire, wparts, size = write_out(w)
+        bad = [("size", f"declared size {size} != {len(wire)} bytes written", {})] if size is not None and size != len(wire) else []
+        return {"impl": f"size={size} written={len(wire)}", "bad": bad, "violates": bool(bad)}
+    return {"violates": None, "note": "unknown suite"}
+
+
+def replay(ctx, case):
+    ok, exe = build_model()
+    return replay_case(exe, case)
+
+
+# ----------------------------------------------------------------------------------------------
+# arbitrary input: bodies derived from valid ones by mutation; limits
+
+def mutate(rng, wire: bytes, boundary: bytes) -> bytes:
+    b = bytearray(wire)
+    delim = b"--" + boundary
+    for _ in range(rng.choice([1, 1, 2, 3])):
+        n = len(b)
+        r = rng.random()
+        if r < 0.22 and n:
+            cut = rng.choice([rng.randint(0, n), max(0, n - rng.randint(1, len(delim) + 8))])
+            b = b[:cut]
+        elif r < 0.34 and n:
+            i = rng.randint(0, n - 1)
+            del b[i:i + rng.choice([1, 1, 2, 5, len(delim)])]
+        elif r < 0.46:
+            i = rng.randint(0, n)
+            b[i:i] = rng.choice([b"\r\n", b"\n", b"\r", b"--", delim, delim + b"--", delim + b"\r\n", b"\r\n" + delim + b"--\r\n",
+                                 bytes(rng.randrange(256) for _ in range(rng.randint(1, 6))), b"Content-Length: 5\r\n",
+                                 b"Content-Length: 99999\r\n", b"Content-Length: 0\r\n", b"Content-Length: +3\r\n",
+                                 b"Content-Transfer-Encoding: base64\r\n", b"X: " + b"y" * 100 + b"\r\n", b" folded\r\n", b": v\r\n",
+                                 b"bad header\r\n", b"Content-Type: multipart/mixed; boundary=in\r\n"])
+        elif r < 0.56 and n:
+            i = rng.randint(0, n - 1)
+            b[i] = rng.choice([0, 10, 13, 45, 58, 32, rng.randrange(256)])
+        elif r < 0.64:
+            b = bytearray(bytes(b).replace(b"\r\n", b"\n"))
+        elif r < 0.72:
+            b = bytearray(rng.choice([b"preamble\r\n", b"\r\n", b"junk", b"--\r\n"]) + bytes(b))
+        elif r < 0.80:
+            b = b + bytearray(rng.choice([b"epilogue", b"\r\n", b"--", delim + b"\r\n", b"\r\n" + delim + b"\r\nX: 1\r\n\r\nlate\r\n" + delim + b"--\r\n"]))
+        elif r < 0.90:
+            i = bytes(b).find(b"Content-Length: ")
+            if i >= 0:
+                j = bytes(b).find(b"\r\n", i)
+                b[i + 16:j] = rng.choice([b"0", b"1", b"3", b"7", b"100", b"8192", b"99999999", b"-1", b"1_0", b"", b" 2", b"\xd9\xa1"])
+        else:
+            i = bytes(b).find(delim)
+            if i >= 0:
+                b[i:i + len(delim)] = delim[:-1] + bytes([delim[-1] ^ 1])
+    return bytes(b)
+
+
+def oracle_arbitrary(rec, total, nsegs):
+    bad = []
+    if rec["final"] == "NONTERMINATION":
+        cur = rec.get("cur") or {}
+        bad.append(("nontermination", f"reader did not terminate within {40 * total + 20000} stream operations on a {total}-byte body "
+                    f"(phase {rec.get('phase')}, api {cur.get('api')})", {"api": cur.get("api"), "phase": list(rec.get("phase") or [])}))
+    return bad
+
+
+def suite_mutants(ctx, exe):
+    rng = ctx.rng
+    n = 700 if ctx.quick else 20000
+    cases, lines = [], []
+    k = 0
+    while k < n:
+        spec = gen_spec(rng)
+        for p in spec["parts"]:
+            if len(p["content"]) > 1200:
+                p["content"] = p["content"][:1200]
+        if spec["kind"] == "formdata":
+            spec["kind"] = "form-data"
+        try:
+            w, origs = build_writer(spec)
+            wire, wparts, size = write_out(w)
+        except (ValueError, AssertionError, TypeError):
+            continue
+        ctype = w.headers["Content-Type"]
+        boundary = spec["boundary"].encode("ascii")
+        blen = len(boundary) + 4
+        for _ in range(3):
+            k += 1
+            body = mutate(rng, wire, boundary)
+            if not body:
+                body = b"\r\n"
+            segs, eager = gen_segs(rng, body, blen)
+            sched = gen_sched(rng, len(spec["parts"]) + 2, blen)
+            limits = {}
+            if rng.random() < 0.3:
+                limits = {"max_field": rng.choice([8, 20, 40, 64]), "max_headers": rng.choice([1, 2, 3, 8]),
+                          "client_max": rng.choice([0, 5, 50, 500, BIG])}
+            rec = impl_run(ctype, segs, eager, sched, limits)
+            case = {"suite": "mutants", "ctype": ctype, "wire": body.hex(), "segs": seg_lens(segs), "eager": eager, "sched": sched,
+                    "limits": limits, "form": spec["kind"] == "form-data"}
+            bad = oracle_arbitrary(rec, len(body), len(segs))
+            impl = obs_of_impl(rec)
+            rb = rec.get("boundary") or (b"--" + boundary)
+            lines.append(model_line(rb[2:], case["form"], segs, eager, sched, limits))
+            cases.append((case, impl, bad, rec["final"]))
+    model = fw.run_model(exe, lines)
+    for (case, impl, bad, final), m in zip(cases, model):
+        ctx.case((case["wire"], json.dumps(case["segs"]), json.dumps(case["sched"]), impl), nontrivial=impl.startswith("P "))
+        ctx.count("mutants:final:" + final.split("(")[0][:24])
+        if m.endswith("UNMODELLED"):
+            ctx.count("model:unmodelled")
+        if compare_obs(m, impl):
+            ctx.disagreement("mutants", case, m[:2000], impl[:2000])
+        report(ctx, case, bad)
+    ctx.sample({"suite": "mutants", "wire": cases[-1][0]["wire"][:200], "sched": cases[-1][0]["sched"], "impl": cases[-1][1][:200]})
+    ctx.close_suite("mutants", len(cases))
+
+
+def limit_cases(rng, quick):
+    """(wire, boundary, limits, sched, k, expect_final, fed_bound, what)"""
+    out = []
+    B = b"LIM"
+    open_ = b"--LIM\r\n"
+    for M in ([16, 64] if quick else [8, 16, 64, 100, 500]):
+        for extra in (-3, 0, 1, 2, 40, 4000):
+            for k in (1, 7, 50):
+                name = b"X-Long: "
+                L = max(0, M + extra - len(name) - 2)
+                line = name + b"a" * L + b"\r\n"
+                wire = open_ + line + b"\r\nbody\r\n--LIM--\r\n"
+                too_long = len(line) > M
+                out.append((wire, B, {"max_field": M}, [["R"]], k, "ERR linetoolong" if too_long else "END",
+                            (len(open_) + M + k + 2) if too_long else None, f"header line of {len(line)} bytes, max_field_size {M}"))
+    for H in ([2, 5] if quick else [1, 2, 5, 20]):
+        for N in (H - 1, H, H + 1, H + 30):
+            for k in (1, 7, 50):
+                if N < 0:
+                    continue
+                hdrs = b"".join(b"X-%d: v\r\n" % i for i in range(N))
+                wire = open_ + hdrs + b"\r\nbody\r\n--LIM--\r\n"
+                too_many = N > H
+                pre = len(open_) + len(b"".join(b"X-%d: v\r\n" % i for i in range(H + 1)))
+                out.append((wire, B, {"max_headers": H}, [["R"]], k, "ERR badhttp" if too_many else "END",
+                            (pre + k + 2) if too_many else None, f"{N} header lines, max_headers {H}"))
+    for M in ([0, 100] if quick else [0, 1, 100, 8192, 10000]):
+        for Lb in (M, M + 1, M + 6 * 8192):
+            for k in ((50, 9000) if quick else (7, 50, 9000)):
+                body = bytes(rng.choice(b"abc\r\n-") for _ in range(Lb)).replace(b"\r\n--LIM", b"\r\n--LIm")
+                head = open_ + b"X: 1\r\n\r\n"
+                wire = head + body + b"\r\n--LIM--\r\n"
+                over = Lb > M
+                out.append((wire, B, {"client_max": M}, [["R"]], k, "ERR maxsize" if over else "END",
+                            (len(head) + M + 3 * 8192 + k + 64) if over else None, f"part of {Lb} bytes read(), client_max_size {M}"))
+    return out
+
+
+def suite_limits(ctx, exe):
+    cases, lines = [], []
+    for wire, B, limits, sched, k, expect, fed_bound, what in limit_cases(ctx.rng, ctx.quick):
+        segs = [[10 ** 9, wire[i:i + k]] for i in range(0, len(wire), k)]     # bytes arrive only when the reader waits
+        stream_holder = {}
+        rec = impl_run("multipart/mixed; boundary=LIM", segs, False, sched, limits)
+        fed = rec["fed"]
+        case = {"suite": "limits", "ctype": "multipart/mixed; boundary=LIM", "wire": wire.hex() if len(wire) < 4000 else None,
+                "what": what, "k": k, "limits": limits, "sched": sched, "expect": expect, "fed_bound": fed_bound, "wire_len": len(wire)}
+        bad = []
+        if rec["final"].split(" (")[0] != expect:
+            bad.append(("limit", f"{what}: reader ended with {rec['final']}, expected {expect}", {}))
+        elif fed_bound is not None and fed > fed_bound:
+            bad.append(("limit-late", f"{what}: the limit was enforced only after {fed} bytes had been taken from the transport "
+                        f"(bound {fed_bound}: limit + one read-ahead window + one segment)", {"fed": fed}))
+        impl = obs_of_impl(rec)
+        lines.append(model_line(B, False, segs, False, sched, limits))
+        cases.append((case, impl, bad, wire))
+    model = fw.run_model(exe, lines)
+    for (case, impl, bad, wire), m in zip(cases, model):
+        ctx.case((case["what"], case["k"], impl[-40:]), nontrivial=True)
+        ctx.count("limits:" + impl.split(" | ")[-1])
+        if compare_obs(m, impl):
+            ctx.disagreement("limits", case, m[-600:], impl[-600:])
+        if bad and case["wire"] is None:
+            case["wire"] = wire.hex()
+        report(ctx, case, bad)
+    ctx.close_suite("limits", len(cases))
